@@ -102,7 +102,7 @@ fn check_arg(arg: &str, expect_bits: u32, symbolic: bool, prefix: usize, case: &
         Tv::Bad { kind, what, detail } => {
             rep.violation(&format!("C08:exec-{}:{}", kind, ["equal", "at-least", "any"][prefix]), &format!("{:?}: {}", text, what), case, detail);
         }
-        Tv::Refused(m) => rep.violation("C08:refused", &format!("{:?} refused by compile: {}", text, m), case, J::Null),
+        Tv::Refused(_) => rep.count("refused_by_compile"), // C12's subject
         Tv::Skip(_) => rep.skipped_unspecified += 1,
     }
 }
